@@ -122,6 +122,7 @@ CHECKS = {
             {"pkg": "thriftw", "run": "^TestC06Thrift(Binary|Struct)Unpack$", "quick": 1000, "thorough": 30000, "shards_thorough": 4},
             {"pkg": "thriftw", "run": "^TestC06Thrift(KnownProbes|TruncationSweep)$", "quick": 1, "thorough": 1, "rapid": False},
             {"pkg": "core", "run": "^TestC06Session$", "quick": 800, "thorough": 40000, "shards_thorough": 8},
+            {"pkg": "core", "run": "^TestC06WebsocketControl$", "quick": 300, "thorough": 10000, "shards_thorough": 4},
             {"pkg": "pure", "run": "^TestC06BodyCodecAlloc$", "quick": 1500, "thorough": 60000, "shards_thorough": 4},
             {"pkg": "wire", "run": "^$", "fuzz": "^FuzzUnpackRaw$", "fuzztime": "90s", "fuzzworkers": 4, "only": "thorough", "rapid": False, "timeout_thorough": 900},
             {"pkg": "wire", "run": "^$", "fuzz": "^FuzzUnpackJSON$", "fuzztime": "90s", "fuzzworkers": 4, "only": "thorough", "rapid": False, "timeout_thorough": 900},
@@ -156,6 +157,7 @@ CHECKS = {
         "assumptions": ["the accessor hook H2 lists the package-level predefined statuses; statuses created per call are not shared and are out of scope",
                         "a violation corrupts process-global state, so a failing history is reported as a log (not re-executable in the same process)"],
         "runs": [
+            {"pkg": "core", "run": "^TestC15PluginStatuses$", "quick": 300, "thorough": 10000, "shards_thorough": 4},
             {"pkg": "core", "run": "^TestC15StatusImmutable$", "quick": 300, "thorough": 12000, "shards_thorough": 8},
             {"pkg": "core", "run": "^TestC15BatteryValues$", "quick": 1, "thorough": 1, "rapid": False},
         ],
@@ -183,6 +185,7 @@ CHECKS = {
             {"pkg": "core", "run": "^TestC18(ConnLimiter|QPSLimiter)Model$", "quick": 2000, "thorough": 80000, "shards_thorough": 8},
             {"pkg": "core", "run": "^TestC18Connections$", "quick": 300, "thorough": 10000, "shards_thorough": 8},
             {"pkg": "core", "run": "^TestC18Rate$", "quick": 100, "thorough": 3000, "shards_thorough": 8},
+            {"pkg": "core", "run": "^TestC18HandlerLimits$", "quick": 60, "thorough": 2000, "shards_thorough": 8},
         ],
     },
     "C19": {
@@ -203,6 +206,7 @@ CHECKS = {
             {"pkg": "racew", "race": True, "run": "^TestC14Programs$", "quick": 100, "thorough": 1600, "shards_thorough": 8, "timeout_quick": 900, "timeout_thorough": 7200},
             {"pkg": "racew", "race": True, "run": "^TestC14Pairs$", "quick": 1, "thorough": 1, "rapid": False, "env": {"VERIF_C14_ROUNDS": "3000"}, "timeout_quick": 900},
             {"pkg": "racew", "race": True, "run": "^TestC14Codecs$", "quick": 300, "thorough": 20000, "shards_thorough": 4},
+            {"pkg": "racew", "race": True, "run": "^TestC14Overloader$", "quick": 60, "thorough": 3000, "shards_thorough": 4},
             {"pkg": "racew", "race": True, "run": "^TestC14Pairs$", "quick": 1, "thorough": 1, "rapid": False, "only": "thorough", "env": {"VERIF_C14_ROUNDS": "30000"}},
             {"pkg": "racew", "race": True, "run": "^TestC14Programs$", "quick": 40, "thorough": 400, "shards_thorough": 4, "env": {"VERIF_C14_LOG": "info"}, "timeout_quick": 900, "timeout_thorough": 7200},
         ],
